@@ -169,7 +169,7 @@ func cmdWorker(args []string) int {
 			seenSig[sig] = true
 			min := res.Intents
 			if res.Viol.Oracle != "deadlock" { // each deadlock replay leaks a hung app and costs the watchdog
-				min = sim.Minimise(prop, res.Cfg, res.Intents, sig, 400)
+				min = sim.Minimise(prop, res.Cfg, res.Intents, sig, 150)
 			}
 			path, err := sim.WriteReplay(replayDir, res, min)
 			if err != nil {
